@@ -19,6 +19,20 @@ Proof.
   destruct (hstep dflt mk h); auto.
 Qed.
 
+(* ---- fuel ---- *)
+Definition nonlocal (r : hres) : Prop := match r with HLocal _ => False | _ => True end.
+
+Lemma run_local_le dflt mk n m h r :
+  run_local dflt mk n h = r -> nonlocal r -> n <= m -> run_local dflt mk m h = r.
+Proof.
+  intros H Hr Hle. replace m with (n + (m - n)) by lia. rewrite run_local_add, H.
+  destruct r; try reflexivity. contradiction.
+Qed.
+
+Lemma run_local_S dflt mk f h :
+  run_local dflt mk (S f) h = match hstep dflt mk h with HLocal h' => run_local dflt mk f h' | r => r end.
+Proof. reflexivity. Qed.
+
 (* ---- gstep on one thread ---- *)
 Definition tstep (th : gthread) (qs : list qstate) (w : nat) : option (gthread * list qstate * nat) :=
   if g_stuck th then None else
@@ -118,6 +132,14 @@ Qed.
 
 Lemma tstep_nocalls th qs w : g_calls th = [] -> tstep th qs w = None.
 Proof. intros H. unfold tstep. rewrite H. destruct (g_stuck th); reflexivity. Qed.
+
+(* a goroutine that has returned from its last call, or panicked *)
+Definition gdone (th : gthread) : bool :=
+  g_stuck th || match g_pos th, g_calls th with None, [] => true | _, _ => false end.
+Definition pfinal (p : pconfig) : bool := forallb gdone (gthreads (pg p)).
+
+Lemma gdone_pview th : gdone (pview th) = gdone th.
+Proof. unfold gdone, pview; simpl. destruct (g_calls th); reflexivity. Qed.
 
 (* ---- batches of calls ---- *)
 Lemma deliver_nohead h r : nohead r = true -> deliver h r = h.
@@ -306,6 +328,46 @@ Proof.
   destruct (pstep dflt p t) as [p'|], (gstep g t) as [g'|]; try contradiction; apply IH; assumption.
 Qed.
 
+(* the same with an explicit (small) bound on the local statements before the first call, so that local
+   statements can be prepended *)
+Inductive BatchF (f : nat) : hstate -> list call -> bend -> Prop :=
+| BF_exit h h' : run_local dflt (gen_mk dflt) f h = HExit h' -> BatchF f h [] BExit
+| BF_await h q w : run_local dflt (gen_mk dflt) f h = HCall (CRemoveHead q) w -> same_shared h w = true ->
+                   BatchF f h [CRemoveHead q] (BAwait w)
+| BF_call h c h' cs e : run_local dflt (gen_mk dflt) f h = HCall c h' -> is_head c = false -> same_shared h h' = true ->
+                        Batch h' cs e -> BatchF f h (c :: cs) e.
+
+Lemma BatchF_Batch f h cs e : f <= local_fuel -> BatchF f h cs e -> Batch h cs e.
+Proof.
+  intros Hf HB. destruct HB as [h h' H | h q w H Hs | h c h' cs e H Hn Hs HB].
+  - apply (B_exit h h'). unfold next_call. apply (run_local_le _ _ f); simpl; auto.
+  - apply B_await; auto. unfold next_call. apply (run_local_le _ _ f); simpl; auto.
+  - apply (B_call h c h'); auto. unfold next_call. apply (run_local_le _ _ f); simpl; auto.
+Qed.
+
+Definition shared_eq (h h' : hstate) : Prop :=
+  length (h_qs h) = length (h_qs h') /\ h_wg h = h_wg h'.
+
+Lemma same_shared_eq h h' x : shared_eq h h' -> same_shared h x = same_shared h' x.
+Proof. intros [A B]. unfold same_shared. rewrite A, B. reflexivity. Qed.
+
+Lemma BatchF_skip n f h h' cs e :
+  run_local dflt (gen_mk dflt) n h = HLocal h' -> shared_eq h h' -> BatchF f h' cs e -> BatchF (n + f) h cs e.
+Proof.
+  intros Hn Hsh HB. destruct HB as [h1 h1' H | h1 q w H Hs | h1 c h1' cs e H Hnh Hs HB].
+  - apply (BF_exit _ h h1'). rewrite run_local_add, Hn. exact H.
+  - apply BF_await. rewrite run_local_add, Hn. exact H. rewrite (same_shared_eq h h1); auto.
+  - apply (BF_call _ h c h1'); auto. rewrite run_local_add, Hn. exact H. rewrite (same_shared_eq h h1); auto.
+Qed.
+
+Lemma PR_map p g {A} (f : gthread -> A) : PR p g -> (forall th, f (pview th) = f th) ->
+  map f (gthreads (pg p)) = map f (gthreads g).
+Proof.
+  intros (Hq & Hw & Hl & Ht) Hf. apply (nth_ext _ _ (f dummyg) (f dummyg)); [rewrite !map_length; exact Hl|].
+  intros t _. rewrite !(map_nth f). specialize (Ht t). unfold ggett in Ht.
+  destruct (nth t (ph p) None); [destruct Ht as [-> _]; apply Hf | rewrite Ht; reflexivity].
+Qed.
+
 (* what the two machines show: queues, counter, per-goroutine results, never outside the discipline *)
 Lemma PR_observables p g : PR p g ->
   gqueues (pg p) = gqueues g /\ gwg (pg p) = gwg g /\
@@ -330,15 +392,20 @@ Qed.
 
 End Sim.
 
-(* ---- fuel ---- *)
-Definition nonlocal (r : hres) : Prop := match r with HLocal _ => False | _ => True end.
 
-Lemma run_local_le dflt mk n m h r :
-  run_local dflt mk n h = r -> nonlocal r -> n <= m -> run_local dflt mk m h = r.
-Proof.
-  intros H Hr Hle. replace m with (n + (m - n)) by lia. rewrite run_local_add, H.
-  destruct r; try reflexivity. contradiction.
-Qed.
+(* symbolic execution of the regenerated code: one statement, then normalise the state *)
+Ltac hsimpl :=
+  cbn [hstep upd with_defer with_qs with_wg with_go with_pending with_ret hstart
+       h_k h_env h_defer h_qs h_wg h_log h_go h_pending h_ret
+       eval holds lookup set binop cmpop break_out String.eqb Ascii.eqb Bool.eqb
+       map app firstn length fst snd negb
+       get_next has_next to_start it_make it_slot it_vals it_size nth_error
+       gen_MakeFromSequence gen_MakeFromArray gen_MakeWithCapacity gen_Fork gen_Split gen_Join];
+  cbv beta iota delta [upd with_defer with_qs with_wg with_go with_pending with_ret hstart
+       h_k h_env h_defer h_qs h_wg h_log h_go h_pending h_ret
+       has_next it_size it_make to_start get_next it_slot it_vals];
+  cbn [map app length fst snd].
+Ltac hs := rewrite run_local_S; hsimpl.
 
 (* n local statements, then the result r within the remaining fuel *)
 Lemma next_call_after dflt n m h h' r :
